@@ -154,6 +154,31 @@ def run(rep, repo, tier):
               "log2|x|, expected %s" % (kw["log2_rounding"], sorted(kinds),
                                         want_kind), loc=loc, instance=cfg,
               facts=facts)
+    # ... and what is rounded is log2 of the magnitude itself: away from
+    # the epsilon floor the argument of the logarithm has no additive
+    # constant (log2(|x| + c) moves every breakpoint by c, which is a whole
+    # exponent for small magnitudes)
+    shifted = []
+    for a in f.atoms():
+      if a[0] == "app" and a[1] in ("round", "floor", "ceil"):
+        for L in a[3][0].atoms():
+          if L[0] == "app" and L[1] in ("log2", "log") and isinstance(
+              L[3][0], NF):
+            for lo_, hi_, xs_ in ((F(1), None, 1), (None, F(-1), -1)):
+              ev1 = Eval(Env(x=VS.real(lo_, hi_), xsign=xs_))
+              try:
+                u1 = pwa.fold_region(L[3][0], ev1)
+              except Exception:   # pylint: disable=broad-except
+                continue
+              c0 = u1.terms.get((), F(0))
+              if c0 != 0 and not u1.is_const():
+                shifted.append("%s on %s" % (show(u1, 80), "x>=1" if xs_ == 1
+                                             else "x<=-1"))
+    rep.check(not shifted, "R3", unit, "log2-of-shifted-magnitude",
+              "the rounded logarithm is taken of %s: an additive constant "
+              "inside the logarithm shifts the exponent breakpoints" %
+              "; ".join(sorted(set(shifted))[:3]), loc=loc, instance=cfg,
+              facts=facts)
     # R4 monotone on each sign
     pols = {}
     for k in ("x>0", "x<0"):
